@@ -16,6 +16,8 @@ import (
 	"reflect"
 	"sort"
 	"strings"
+	"sync"
+	"sync/atomic"
 	"testing"
 	"time"
 
@@ -342,6 +344,13 @@ type caseWitness struct {
 	Text    string   `json:"text,omitempty"`
 }
 
+// concurrent phase: every concEvery-th case, concGoroutines goroutines x concIters verifications on one request object
+const (
+	concEvery      = 5
+	concGoroutines = 8
+	concIters      = 40
+)
+
 func TestC25(t *testing.T) {
 	zerolog.SetGlobalLevel(zerolog.Disabled)
 	run := ev.Start("C25")
@@ -355,6 +364,7 @@ func TestC25(t *testing.T) {
 	replyMustAccept := map[string]int{} // Request.RelayData.Salt, unsigned reply fields, Request.RelaySession
 	unhandledAll := map[string]bool{}
 	untouchedSessions, untouchedReplies, badgeAccepted, mutationChecks := 0, 0, 0, 0
+	concurrentVerifications := 0
 
 	topField := func(path string) string { // "RelaySession.QosReport.Latency" -> "QosReport"
 		p := strings.SplitN(path, ".", 3)
@@ -499,6 +509,44 @@ func TestC25(t *testing.T) {
 			continue
 		}
 		untouchedReplies++
+
+		// ---- (3b) the same request OBJECT checked by several goroutines at once (a consumer verifies the replies of
+		// several providers to one request concurrently): every verification must succeed and the request must come
+		// out unchanged, whatever the interleaving
+		if i%concEvery == 0 {
+			sharedReq := cloneRequest(consumerReq)
+			before := mustMarshal(sharedReq)
+			var wg sync.WaitGroup
+			var failed, calls atomic.Int64
+			var firstErr atomic.Value
+			for g := 0; g < concGoroutines; g++ {
+				wg.Add(1)
+				go func() {
+					defer wg.Done()
+					for k := 0; k < concIters; k++ {
+						calls.Add(1)
+						if err := lavaprotocol.VerifyRelayReply(ctx, cloneReply(signedReply), sharedReq, provider.Addr.String()); err != nil {
+							failed.Add(1)
+							firstErr.CompareAndSwap(nil, err.Error())
+						}
+					}
+				}()
+			}
+			wg.Wait()
+			run.Eval(1)
+			concurrentVerifications += int(calls.Load())
+			w := caseWitness{Seed: run.Seed, Case: i, Signed: hex.EncodeToString(reqBytes), Reply: hex.EncodeToString(repBytes), Signer: provider.Addr.String()}
+			if n := failed.Load(); n > 0 {
+				run.Violation("untouched-reply-rejected", "VerifyRelayReply: concurrent verifications sharing one request object",
+					fmt.Sprintf("%d of %d concurrent verifications of a validly signed reply failed (%d goroutines share the request object): %v", n, calls.Load(), concGoroutines, firstErr.Load()), w)
+			}
+			if after := mustMarshal(sharedReq); !bytes.Equal(before, after) {
+				run.Violation("verification-mutates-input", "VerifyRelayReply: concurrent verifications sharing one request object",
+					fmt.Sprintf("the request object differs after %d concurrent verifications (salt before=%x after=%x)", calls.Load(), consumerReq.RelayData.GetSalt(), sharedReq.RelayData.GetSalt()), w)
+			} else if failed.Load() == 0 {
+				run.Nontrivial(fmt.Sprintf("concurrent-verify|%d", i))
+			}
+		}
 
 		// ---- (4) single-field mutations of reply and of request
 		check := func(path, how string, mreq *pairingtypes.RelayRequest, mrep *pairingtypes.RelayReply, mustReject bool, class string) {
@@ -677,10 +725,12 @@ func TestC25(t *testing.T) {
 	run.Require("every field kind of the protobuf structs handled by the mutator (unhandled: "+strings.Join(uk, ",")+")", len(uk) == 0)
 	run.Count("untouched sessions recovered", untouchedSessions)
 	run.Count("untouched replies verified", untouchedReplies)
+	run.Count("concurrent verifications on a shared request object", concurrentVerifications)
 	run.Count("badge-only changes still recovered", badgeAccepted)
 	run.Count("before/after comparisons of checked objects", mutationChecks)
 	run.Require("untouched sessions recovered", untouchedSessions > 0)
 	run.Require("untouched replies verified", untouchedReplies > 0)
+	run.Require("concurrent verifications on a shared request object", concurrentVerifications > 0)
 	run.Require("badge-only change exercised", badgeAccepted > 0)
 	run.Finish("PRNG relay requests signed by the consumer's ConstructRelayRequest (QoS reports from the real QoS manager, reported providers, optional badge) and replies signed by the provider's SignRelayResponse; every field of RelaySession / RelayReply / RelayRequest found by reflection is mutated on its own (strings, bytes, integers, decimals, nil<->value, list append/remove/duplicate/swap, element fields, oneofs), plus re-framings of the reply metadata and of the reply-data|request-data boundary; sigs.ExtractSignerAddress and lavaprotocol.VerifyRelayReply decide, and every checked object is compared (deep-equal and marshalled bytes) before vs after; a case is non-trivial when the mutated object marshals differently from the signed one, the untouched one verified, and the verdict was the expected one; distinct = distinct (signed, mutated) byte pairs",
 		n*20, "secp256k1/SHA-256 forgeries are not expected among generated inputs", "Badge and Sig are not signed fields of the session; the salt is not part of the reply signature (statement)", "mutating Sig itself is not a field mutation the statement speaks about")
